@@ -362,14 +362,14 @@ theorem subtractOne_ok (vr : Variant) (hvr : vr.narrowIgnoresLabels = false) (rf
           obtain ⟨rfl, rfl⟩ := h
           have hsound : ∀ v, inh T [] a v → inh T [] b v := by
             unfold isCompatible at hic
-            cases hc : checkRel T .all rf [] [] a b with
+            cases hc : checkRel T .all rf [] {} a b with
             | none => simp [hc] at hic
             | some p =>
               obtain ⟨r, asm'⟩ := p
               rw [hc] at hic
               simp only [Option.map_some, Option.some.injEq] at hic
               subst hic
-              have := checkRel_good_any T rf (rk T a + rk T b + 1) [] [] a b ha hb (by omega)
+              have := checkRel_good_any T rf (rk T a + rk T b + 1) [] {} a b ha hb (by omega)
                 (fun p hp => by simp at hp) true asm' hc
               exact fun v hv => this.2 rfl [] [] v hv
           exact ⟨Table.Sub.refl _, by simp, fun v _ hav hbv => absurd (hsound v hav) hbv⟩
